@@ -384,6 +384,10 @@ pub fn docs(tier: Tier) -> Vec<Value> {
         json!(0),
         json!({"a": " ", "b": ["\t", "\u{a0}", ""]}),
         json!([{"a": [1, null]}, {"b": 1}, {"a": null}, {"a": [[2], null, {"a": 3}]}]),
+        // a null (or an element that yields null under every continuation) *before* the elements that yield
+        // something: a shortcut that stops at the first match differs from the staged result only here
+        json!([null, 1, [2], {"a": 3}]),
+        json!({"a": [null, false, {"b": 1}, {"a": 2, "b": 2}], "b": [null]}),
     ];
     if tier == Tier::Thorough {
         v.extend(crate::enumr::pool_quick());
@@ -463,6 +467,22 @@ pub fn run(tier: Tier) -> i32 {
         });
         st.count("medium_size_document_pairs", sm.states);
         st = st.merge(sm);
+    }
+    // predicates two and three productions deep as the right-hand part (filter and chain laws take R as the
+    // predicate, not / and / or take it as an operand), a few subjects on the left
+    {
+        let preds = crate::checks::c01::predicates();
+        let ls = ["@", "a", "[*]", "*", "[a, b]", "[]"];
+        let sp = par_sweep(preds.chunks(32).map(|c| c.to_vec()).collect::<Vec<_>>(), |chunk: &Vec<String>, st| {
+            for p in chunk {
+                for l in ls {
+                    check_pair(l, p, &dv, st);
+                }
+                check_pair(p, "a", &dv, st);
+            }
+        });
+        st.count("predicate_pairs", sp.states);
+        st = st.merge(sp);
     }
     rep.guard("non-null compound results occur", st.nontrivial > 1000);
     rep.rule = "all pairs (L, R) from E1 x E0, E0 x E1 and six diagonals of E1 x E1 (thorough: all of E1 x E1) x 11 laws x the document pool: the compound expression (text, and where expressible the tree built through Expression::new) against the combination of the parts' individual search results, computed with separate search calls of the implementation. states = pairs; transitions = (pair, law, document); non-trivial = non-null compound result Plus 11 parts that create values inside the expression (integers beyond i64, i64::MIN, 1e308, 5e-324, -0.0, 1 vs 1.0, non-ASCII strings) x 26 other parts, both orders.".into();
